@@ -240,11 +240,21 @@ impl PendingSubscriptionSink {
 		let success = response.is_success();
 
 		// Register the subscription before the response goes out: an unsubscribe call that arrives
-		// right after the response must find it. The entry is taken back if the response can't be delivered.
+		// right after the response must find it. The registration is owned by `active`: if the response
+		// can't be delivered, or this future is dropped while waiting for room in the connection's buffer,
+		// dropping `active` takes the entry back.
 		let (tx, rx) = mpsc::channel(1);
-		if success {
+		let active = if success {
 			self.subscribers.lock().insert(self.uniq_sub.clone(), (self.inner.clone(), rx));
-		}
+			Some(Arc::new(ActiveSubscription {
+				subscribers: self.subscribers,
+				uniq_sub: self.uniq_sub.clone(),
+				unsubscribe: IsUnsubscribed(tx.clone()),
+				_permit: self.permit,
+			}))
+		} else {
+			None
+		};
 
 		// TODO: #1052
 		//
@@ -258,29 +268,20 @@ impl PendingSubscriptionSink {
 		};
 
 		if !delivered {
-			if success {
-				self.subscribers.lock().remove(&self.uniq_sub);
-			}
 			return Err(PendingSubscriptionAcceptError);
 		}
 
-		if success {
-			Ok(SubscriptionSink {
+		match active {
+			Some(active) => Ok(SubscriptionSink {
 				inner: self.inner,
 				method: self.method,
-				uniq_sub: self.uniq_sub.clone(),
-				unsubscribe: IsUnsubscribed(tx.clone()),
-				_active: Arc::new(ActiveSubscription {
-					subscribers: self.subscribers,
-					uniq_sub: self.uniq_sub,
-					unsubscribe: IsUnsubscribed(tx),
-					_permit: self.permit,
-				}),
-			})
-		} else {
-			panic!(
+				uniq_sub: self.uniq_sub,
+				unsubscribe: IsUnsubscribed(tx),
+				_active: active,
+			}),
+			None => panic!(
 				"The subscription response was too big; adjust the `max_response_size` or change Subscription ID generation"
-			);
+			),
 		}
 	}
 
